@@ -128,6 +128,11 @@ TOther      == (Is("PollCheck") \/ Is("Healthy") \/ Is("Backoff") \/ Is("ListFai
                 \/ Is("Attempt") \/ Is("AttemptStatus") \/ Is("AttemptErr") \/ Is("BrsRead") \/ Is("BrsSeek"))
                /\ Stutter
                /\ Step
+\* volume scenarios run without per-request events: their summary says that every request got its own response
+\* (judged by the harness from the tokens) and that both processes are still there
+TVolume     == (Is("RelayVolume") \/ Is("FaultVolume")) /\ Stutter
+               /\ E.wrong = 0 /\ E.unanswered = 0 /\ E.other = 0 /\ E.agent_alive /\ E.proxy_alive
+               /\ Step
 \* end of a scenario: every client that was not hit by a fault has its own OK response, and
 \* both processes are still running (no action of Relay ever stops the agent)
 TFinal      == Is("Final") /\ Stutter
@@ -137,7 +142,7 @@ TFinal      == Is("Final") /\ Stutter
 TNext == TReset \/ TClientSend \/ TRegister \/ TListStart \/ TRecv \/ TListReply \/ TListOK \/ TDedup
          \/ TSpawn \/ TFetch \/ TWForward \/ TBackend \/ TBackendReply \/ TBackendFault \/ TPostLookup \/ TPostRelookup
          \/ TClientResp \/ TClientRecv \/ TClientCancel \/ TClientGaveUp \/ TFault \/ TWServed
-         \/ TWClosed \/ TPostFault \/ TFetchFault \/ TOther \/ TFinal
+         \/ TWClosed \/ TPostFault \/ TFetchFault \/ TOther \/ TFinal \/ TVolume
 
 TSpec == TInit /\ [][TNext]_<<rvars, l>>
 
